@@ -11,6 +11,6 @@ if ! go build ./... 2>/tmp/mut_build.log; then echo "MUTANT DOES NOT BUILD"; cat
 cd /verif
 for p in "$@"; do
   echo "--- $p"
-  timeout 1200 ./check "$p" 2>&1 | grep -E "^check|^VIOLATION|undischarged|KNOWN" | cut -c1-400 | head -12
+  VERIF_NO_EVIDENCE=1 timeout 1200 ./check "$p" 2>&1 | grep -E "^check|^VIOLATION|undischarged|KNOWN|disagreement" | cut -c1-400 | head -12
 done
 cd /repo && git checkout -- . && git status --short | head -3
